@@ -150,6 +150,10 @@ def one_case(arg):
                 env["GIT_CONFIG_KEY_%d" % i] = sec + ("." + sub if sub is not None else "") + "." + var
                 env["GIT_CONFIG_VALUE_%d" % i] = val
             used.append("command")
+        if rng.random() < 0.3:
+            # a chatty git: trace output on stderr must never end up in what is read as configuration
+            env["GIT_TRACE"] = rng.choice(["1", "2", "true"])
+            used.append("GIT_TRACE")
         out["scopes"] = len(used)
         # ground truth: what git itself reports, parsed NUL-first
         genv = dict(env)
